@@ -22,7 +22,9 @@ MR == INSTANCE MultivectorRef WITH
 
 Trace == ndJsonDeserialize(IOEnv.TRACE_FILE)
 U == Trace[1].u
-CC == Compile(BitCfg(U))
+UM == UC(U)
+CC == Compile(BitCfgM(UM))
+Graded == Trace[1].opts.graded
 
 VARIABLE l
 
@@ -30,9 +32,14 @@ DecodeCoef(ring, j) == IF ring = "poly" THEN RFromPoly(PFromSeq(j)) ELSE RFromJs
 DecodeCoefs(ring, js) == [i \in DOMAIN js |-> DecodeCoef(ring, js[i])]
 DecodeMV(c, ring, mv) == MR!FromKV(c.d, mv.keys, DecodeCoefs(ring, mv.coefs))
 
+\* graded mode (C13): every result stores complete grades, in canonical order
+CompleteGrades(keys) == keys = IndicesForGrades(UM, {CC.pop[keys[i]] : i \in DOMAIN keys})
+
 OpEventVerdict(c, e) ==
   IF \E i \in DOMAIN e.args : ~MR!StoredOK(c, e.args[i].keys, e.args[i].coefs)
   THEN "operand_not_well_formed"
+  ELSE IF e.kind # "opc" /\ Graded /\ e.raised = "" /\ ~CompleteGrades(e.res.keys)
+  THEN "graded_mode_result_does_not_store_complete_grades"
   ELSE MR!OpVerdict(c, e.op, [i \in DOMAIN e.args |-> DecodeMV(c, e.ring, e.args[i])],
                     e.params, e.raised, e.res.keys, DecodeCoefs(e.ring, e.res.coefs),
                     DecodeMV(c, e.ring, e.witness))
@@ -72,8 +79,40 @@ CallEventVerdict(c, e) ==
   ELSE IF \E i \in DOMAIN e.before : ~SameStored(e.before[i], e.after[i]) THEN "operand_or_earlier_result_was_modified"
   ELSE "ok"
 
+(***************************************************************************)
+(* C12: symbolic evaluation commutes with numeric evaluation.                *)
+(*   e.args / e.res : symbolic operands and the symbolic result, as          *)
+(*                    polynomials / rational functions in the symbols        *)
+(*   e.sigma        : the assignment  <<var id, <<n, d>>>>...                 *)
+(*   e.evals        : numeric multivectors obtained by calling the result    *)
+(*                    positionally / by keyword, by sympy substitution, and  *)
+(*                    by applying the operator to the numeric operands        *)
+(* Clauses: the symbolic result is the reference value for ALL values        *)
+(* (OpVerdict over the rational functions; a dropped blade must be           *)
+(* identically zero), and every numeric multivector equals the symbolic      *)
+(* result evaluated at sigma, blade by blade (absent = 0).                    *)
+(***************************************************************************)
+SubstVerdict(c, e) ==
+  LET v1 == OpEventVerdict(c, e)
+      env == [i \in {e.sigma[k][1] : k \in DOMAIN e.sigma} |->
+                LET k == CHOOSE k \in DOMAIN e.sigma : e.sigma[k][1] = i IN <<e.sigma[k][2][1], e.sigma[k][2][2]>>]
+      rs == DecodeMV(c, e.ring, e.res)
+      pole == \E B \in DOMAIN rs : REvalQ(rs[B], env)[2] = 0
+      bad(ev) == LET R == DecodeMV(c, "rat", ev.res) IN
+                 \E B \in DOMAIN rs : ~RIsConst(R[B]) \/ ~QEq(RToQ(R[B]), REvalQ(rs[B], env))
+  IN
+  IF v1 # "ok" THEN v1
+  ELSE IF e.raised # "" \/ pole THEN "ok"
+  ELSE IF \E i \in DOMAIN e.evals : e.evals[i].raised # "" THEN "numeric_evaluation_raised"
+  ELSE IF \E i \in DOMAIN e.evals : e.evals[i].how = "call_positional" /\ bad(e.evals[i]) THEN "positional_call_differs_from_substitution"
+  ELSE IF \E i \in DOMAIN e.evals : e.evals[i].how = "call_keyword" /\ bad(e.evals[i]) THEN "keyword_call_differs_from_substitution"
+  ELSE IF \E i \in DOMAIN e.evals : e.evals[i].how = "subs" /\ bad(e.evals[i]) THEN "sympy_subs_differs_from_substitution"
+  ELSE IF \E i \in DOMAIN e.evals : e.evals[i].how = "numeric_operator" /\ bad(e.evals[i]) THEN "numeric_operator_differs_from_symbolic_result_at_sigma"
+  ELSE "ok"
+
 Verdict(e) ==
   CASE e.kind = "op" -> OpEventVerdict(CC, e)
+    [] e.kind = "subst" -> SubstVerdict(CC, e)
     [] e.kind = "call" -> CallEventVerdict(CC, e)
     [] e.kind = "opc" -> OpEventVerdict(Compile(BitCfg(e.u)), e)
     [] OTHER -> "unknown_event_kind"
